@@ -201,10 +201,18 @@ pub fn gen_corpus(rng: &mut StdRng, n: usize, dense_all: bool) -> Vec<Value> {
             }
         }
         // a few very long documents: a term frequency above 255 saturates the one-byte block-WAND code
+        // By default two words alternate, so that a term frequency stays near half of the field length.  With
+        // VERIF_HEAVY_SINGLE=1 one word fills the document: the quantised field norm then decodes to a length below the term
+        // frequency and the real score exceeds Bm25Weight::max_score (recorded finding F47, dedicated sub-run of C06).
         if rng.random_bool(0.02) {
+            let single = std::env::var("VERIF_HEAVY_SINGLE").is_ok();
             let w = format!("b{}", rng.random_range(0..2));
+            let other = if w == "b0" { "b1".to_string() } else { "b0".to_string() };
             for _ in 0..rng.random_range(200..700) {
                 body.push(w.clone());
+                if !single {
+                    body.push(other.clone());
+                }
             }
         }
         m.insert("body".into(), json!(body));
